@@ -222,6 +222,15 @@ where
                 }
             }
         }
+        // thorough tier, one 64-bit layout: x = +-1 with n = i32::MIN runs all 2^31 - 1 multiplications (minutes); the only
+        // operands for which the full loop at the extreme exponent yields a result
+        if c.tier == "thorough" && c.light <= 1 && ls.w == 64 && ls.f == 32 && ld.w == 64 && ld.f == 32 {
+            for x in [1u128 << ls.f, neg_of(ls, 1u128 << ls.f)] {
+                let a = S::from_raw(x);
+                let (r, it) = call_b::<D, _>(u64::MAX, || tr::powi::<S, D>(a, i32::MIN));
+                emit(c, "powi", ls, ld, a.val(), None, Some(i32::MIN), r, it);
+            }
+        }
         // i32::MIN with |x| > 1 terminates quickly through overflow; with x = 0 it returns at once
         for x in [0u128, (3u128 << ls.f.min(120)) & mask(ls.w - 1)] {
             let a = S::from_raw(x);
